@@ -10,6 +10,10 @@ Three sections, each with its own pinned fallback (tools/pinned/LayerOps.lean):
            (`glyphs`, `contents`, `path_set`, `layers`), calls to other methods of the same type followed
            (`self.remove_glyph(..)`, `self.insert_glyph(..)`, `self.remove(..)`, `self.new_layer(..)`, `self.retain(..)`),
            and whether `LayerContents::retain` protects the default layer
+  decides  which index (`contents` / `glyphs`) `Layer::insert_glyph` asks before it assigns a file name (whole body must
+           have the known shape), and the `let path_set = <src>.iter().skip(<n>).map(|..| ..path.to_string_lossy()
+           .to_lowercase()).collect();` statement of `LayerContents::load`: its source collection, the skip count and
+           whether it stands after `layers.insert(0, default_layer);`
 
 The property file proves that the model's operations return an error exactly as the extracted chains say
 (`source_newLayer_guards`, `source_renameLayer_guards`, `source_renameGlyph_guards`) and that the extracted update table is
@@ -224,7 +228,41 @@ def section_touches(src):
     return lines
 
 
-SECTIONS = [("consts", section_consts), ("guards", section_guards), ("touches", section_touches)]
+INSERT_GLYPH = (r"letglyph=glyph\.into\(\);if!self\.(glyphs|contents)\.contains_key\(&glyph\.name\)\{"
+                r"letpath=crate::util::default_file_name_for_glyph_name\(&glyph\.name,&self\.path_set\);"
+                r"self\.path_set\.insert\(path\.to_string_lossy\(\)\.to_lowercase\(\)\);"
+                r"self\.contents\.insert\(glyph\.name\.clone\(\),path\);\}"
+                r"self\.glyphs\.insert\(glyph\.name\.clone\(\),glyph\);")
+LOAD_PATH_SET = (r"letpath_set(?::[^=;]*)?=(\w+)\.iter\(\)\.skip\((\d+)\)"
+                 r"\.map\(\|[^|]*\|(?:\w+\.)?path\.to_string_lossy\(\)\.to_lowercase\(\)\)\.collect\(\);")
+
+
+def section_decides(src):
+    """two decisions the histories depend on: which index `insert_glyph` asks whether the name needs a file name, and
+    from which collection / after which statement `LayerContents::load` builds the path set"""
+    ly = impl_block(src, r"^impl Layer \{")
+    lc = impl_block(src, r"^impl LayerContents \{")
+    b = re.sub(r"\s+", "", strip_comments(fn_body(ly, "insert_glyph")))
+    m = re.fullmatch(INSERT_GLYPH, b)
+    if not m:
+        raise Anchor("insert_glyph: unknown shape")
+    idx = m.group(1)
+    b = re.sub(r"\s+", "", strip_comments(fn_body(lc, "load")))
+    mv = b.find("layers.insert(0,default_layer);")
+    ms = list(re.finditer(LOAD_PATH_SET, b))
+    if mv < 0 or len(ms) != 1:
+        raise Anchor("load: the move of the default layer or the path_set statement has an unknown shape")
+    # nothing else may touch the path set, and the function must end by handing both over
+    if len(re.findall(r"path_set", b)) != 2 or not b.endswith("Ok(LayerContents{layers,path_set})"):
+        raise Anchor("load: other uses of path_set")
+    after = ms[0].start() > mv
+    return ["def insertGlyphDecidesBy : Layers.Index := .%s" % idx,
+            "def loadPathSet : Layers.LoadPathSet := { source := \"%s\", skip := %s, afterDefaultMove := %s }"
+            % (ms[0].group(1), int(ms[0].group(2)), "true" if after else "false")]
+
+
+SECTIONS = [("consts", section_consts), ("guards", section_guards), ("touches", section_touches),
+            ("decides", section_decides)]
 
 
 def pinned_section(name):
